@@ -120,7 +120,9 @@ def keystore_text(ks: dict) -> tuple[str, bytes, str]:
         return s
 
     kid, d1, d2 = bytes.fromhex(ks["key_id"]), bytes.fromhex(ks["data1"]), bytes.fromhex(ks["data2"])
-    enc = f"keyId={q(kid)}:data1={q(d1)}:data2={q(d2)}:version=1"
+    fields = [f"keyId={q(kid)}", f"data1={q(d1)}", f"data2={q(d2)}", "version=1"]
+    order = ks.get("field_order") or [0, 1, 2, 3]  # the fields are named: any order is the same keystore
+    enc = ":".join(fields[i] for i in order)
     lines = [[".encoding", "UTF-8"], ["includeKeyCache", "FALSE"], ["mode", "NONE"], ["ConfigEncData", enc]]
     extra = ks.get("extra", [])
     where = ks.get("extra_at", 0) % (len(lines) + 1)
